@@ -9,7 +9,6 @@ Close Scope Q_scope.
 Section WithTable.
 Variable t : ranks.
 Hypothesis ROK : ranks_ok t = true.
-Variable cu : list N -> N.   (* the class table: __qualname__ -> class *)
 
 (* ---- what ranks_ok gives ----------------------------------------------------------------- *)
 Lemma distinct_NoDup l : distinct l = true -> NoDup l.
@@ -38,25 +37,27 @@ Proof.
 Qed.
 
 Definition cls_wf (c : cls) : Prop :=
-  match c with CObj n u => name_ok t n = true /\ u = cu n | CEnt => False | _ => True end.
+  match c with CObj n u => name_ok t n = true | CEnt => False | _ => True end.
 
-Lemma crank_inj c d : cls_wf c -> cls_wf d -> crank t c = crank t d -> c = d.
+(* equal rank strings: the same class, or two object classes of one __qualname__ *)
+Lemma crank_inj c d : cls_wf c -> cls_wf d -> crank t c = crank t d ->
+  c = d \/ exists n u u', c = CObj n u /\ d = CObj n u'.
 Proof.
   destruct rank_facts as (_ & _ & ND).
   repeat match goal with H : NoDup (_ :: _) |- _ => inversion H; clear H; subst end.
-  destruct c, d; simpl; intros W1 W2 E; try reflexivity; try contradiction;
-    try (match type of W1 with _ /\ _ => destruct W1 as [W1 U1]; apply name_ok_spec in W1; unfold all_ranks in W1; simpl in W1 end);
-    try (match type of W2 with _ /\ _ => destruct W2 as [W2 U2]; apply name_ok_spec in W2; unfold all_ranks in W2; simpl in W2 end);
-    try (subst; reflexivity);
+  destruct c, d; simpl; intros W1 W2 E; try (left; reflexivity); try contradiction;
+    try (subst; right; eauto; fail);
+    try (apply name_ok_spec in W1; unfold all_ranks in W1; simpl in W1);
+    try (apply name_ok_spec in W2; unfold all_ranks in W2; simpl in W2);
     exfalso; simpl in *; intuition congruence.
 Qed.
 
-Lemma cls_cmp_neq c d : cls_wf c -> cls_wf d -> c <> d ->
+Lemma cls_cmp_neq c d : crank t c <> crank t d ->
   cls_cmp t c d = str_cmp (crank t c) (crank t d) /\ str_cmp (crank t c) (crank t d) <> Eq.
 Proof.
-  intros W1 W2 NE. unfold cls_cmp.
+  intros NE. unfold cls_cmp.
   destruct (str_cmp (crank t c) (crank t d)) eqn:E; simpl; try (split; [reflexivity|discriminate]).
-  apply str_cmp_eq in E. exfalso. apply NE. apply crank_inj; auto.
+  apply str_cmp_eq in E. contradiction.
 Qed.
 
 (* ---- normal forms ------------------------------------------------------------------------- *)
@@ -99,21 +100,21 @@ Proof.
   intros H. apply andb_prop in H. destruct H as [H1 H2]. apply str_eqb_eq in H1. apply N.eqb_eq in H2. congruence.
 Qed.
 
-Lemma cmp_ok_wf f v : cmp_ok t cu f v = true -> cls_wf (kcls v).
+Lemma cmp_ok_wf f v : cmp_ok t f v = true -> cls_wf (kcls v).
 Proof.
   destruct v; simpl; auto. intros H.
-  repeat (apply andb_prop in H; destruct H as [H ?]). split; auto. apply N.eqb_eq; auto.
+  repeat (apply andb_prop in H; destruct H as [H ?]). exact H.
 Qed.
 
 Lemma cls_eq_dec (c d : cls) : {c = d} + {c <> d}.
 Proof. decide equality. apply N.eq_dec. apply list_eq_dec. apply N.eq_dec. Qed.
 
 (* values of different classes: decided by the rank strings *)
-Lemma ncmp_diff f a b : cmp_ok t cu f a = true -> cmp_ok t cu f b = true -> kcls a <> kcls b ->
+Lemma ncmp_diff a b : rank t a <> rank t b ->
   ncmp t (norm a) (norm b) = str_cmp (rank t a) (rank t b) /\ str_cmp (rank t a) (rank t b) <> Eq.
 Proof.
-  intros Ha Hb NE. rewrite ncmp_unfold, !ncls_norm, !rank_crank.
-  destruct (cls_cmp_neq (kcls a) (kcls b)) as [E1 E2]; eauto using cmp_ok_wf.
+  intros NE. rewrite !rank_crank in NE. rewrite ncmp_unfold, !ncls_norm, !rank_crank.
+  destruct (cls_cmp_neq (kcls a) (kcls b)) as [E1 E2]; auto.
   rewrite E1. split; auto. destruct (str_cmp _ _); simpl; auto. congruence.
 Qed.
 
@@ -138,7 +139,7 @@ Proof.
   destruct f, x; intros H1; try discriminate H1; destruct y; intros H2; try discriminate H2;
     repeat split; unfold native_eq, native_lt; cbn [norm num_of]; rewrite ?ncmp_num, ?ncmp_str; reflexivity.
 Qed.
-Lemma leaf_cmp_ok f x : leaf_in_fam f x = true -> cmp_ok t cu f x = true /\ depth x = O.
+Lemma leaf_cmp_ok f x : leaf_in_fam f x = true -> cmp_ok t f x = true /\ depth x = O.
 Proof. destruct f, x; simpl; try discriminate; auto. Qed.
 
 (* ---- element-wise comparison of sequences ---------------------------------------------------- *)
@@ -287,7 +288,9 @@ Definition lt_body (n : nat) (a b : pv) : result bool :=
   | PObj na ua ea =>
       match b with
       | PObj nb ub eb =>
-          if str_eqb na nb && N.eqb ua ub then ents_lt t (eq_f n) (lt_f t n) (sort_ents t ea) (sort_ents t eb)
+          if str_eqb na nb then
+            if N.eqb ua ub then ents_lt t (eq_f n) (lt_f t n) (sort_ents t ea) (sort_ents t eb)
+            else Ok (N.ltb ua ub)
           else Err ERecursion
       | _ => Err ERecursion
       end
@@ -304,14 +307,13 @@ Lemma lt_f_same n a b : kcls a = kcls b -> lt_f t (S n) a b = lt_body n a b.
 Proof.
   intros E. rewrite lt_f_S, !rank_crank, E, str_eqb_refl. simpl. rewrite andb_false_r. reflexivity.
 Qed.
-Lemma lt_f_diff f n a b : cmp_ok t cu f a = true -> cmp_ok t cu f b = true -> kcls a <> kcls b ->
+Lemma lt_f_diff n a b : rank t a <> rank t b ->
   lt_f t (S n) a b = Ok (is_lt (str_cmp (rank t a) (rank t b))).
 Proof.
-  intros Ha Hb NE. rewrite lt_f_S.
-  destruct (same_type a b) eqn:S; [apply same_type_kcls in S; contradiction|].
+  intros NE. rewrite lt_f_S.
+  destruct (same_type a b) eqn:S; [apply same_type_kcls in S; rewrite !rank_crank, S in NE; contradiction|].
   destruct (str_eqb (rank t a) (rank t b)) eqn:R; [|reflexivity].
-  apply str_eqb_eq in R. rewrite !rank_crank in R. exfalso. apply NE.
-  apply crank_inj; eauto using cmp_ok_wf.
+  apply str_eqb_eq in R. contradiction.
 Qed.
 Lemma eq_f_diff n a b : kcls a <> kcls b -> eq_f (S n) a b = false.
 Proof.
@@ -320,19 +322,30 @@ Proof.
   apply str_eqb_eq in E. apply N.eqb_eq in F. congruence.
 Qed.
 
-Lemma cmp_ok_ents f (e : list (key * pv)) p : forallb (fun kv => cmp_ok t cu f (snd kv)) e = true -> In p e -> cmp_ok t cu f (snd p) = true.
+Lemma cmp_ok_ents f (e : list (key * pv)) p : forallb (fun kv => cmp_ok t f (snd kv)) e = true -> In p e -> cmp_ok t f (snd p) = true.
 Proof. intros H I. rewrite forallb_forall in H. apply (H p I). Qed.
 
-Lemma link f n : forall a b, depth a < n -> cmp_ok t cu f a = true -> cmp_ok t cu f b = true ->
+Lemma link f n : forall a b, depth a < n -> cmp_ok t f a = true -> cmp_ok t f b = true ->
   eq_f n a b = is_eq (ncmp t (norm a) (norm b)) /\ lt_f t n a b = Ok (is_lt (ncmp t (norm a) (norm b))).
 Proof.
   induction n as [|n IH]; intros a b D Ha Hb; [lia|].
   destruct (cls_eq_dec (kcls a) (kcls b)) as [EQ|NE].
-  2:{ destruct (ncmp_diff f a b Ha Hb NE) as [E1 E2].
-      rewrite eq_f_diff, (lt_f_diff f), E1 by auto. split; auto.
-      destruct (str_cmp (rank t a) (rank t b)); simpl; congruence. }
+  2:{ destruct (list_eq_dec N.eq_dec (rank t a) (rank t b)) as [RE|RN].
+      - (* two classes of one __qualname__: ordered by uid *)
+        rewrite !rank_crank in RE.
+        destruct (crank_inj _ _ (cmp_ok_wf f a Ha) (cmp_ok_wf f b Hb) RE) as [C|(nm & u & u' & Ca & Cb)]; [contradiction|].
+        destruct a; try discriminate Ca. destruct b; try discriminate Cb. cbn [kcls] in Ca, Cb, NE. inv Ca. inv Cb.
+        assert (U : u <> u') by congruence.
+        rewrite lt_f_S. cbn [same_type rank lt_body eq_f norm]. rewrite !norm_ents, ncmp_unfold. cbn [ncls shape nbody].
+        rewrite str_eqb_refl. assert (UE : N.eqb u u' = false) by (apply N.eqb_neq; auto). rewrite UE. cbn [andb negb].
+        unfold cls_cmp. cbn [crank cidx cuid]. rewrite str_cmp_refl, N.compare_refl. cbn [cthen].
+        destruct (N.compare u u') eqn:C; cbn [cthen is_eq is_lt]; unfold N.ltb; rewrite C; auto.
+        apply N.compare_eq in C. contradiction.
+      - destruct (ncmp_diff a b RN) as [E1 E2].
+        rewrite eq_f_diff, lt_f_diff, E1 by auto. split; auto.
+        destruct (str_cmp (rank t a) (rank t b)); simpl; congruence. }
   rewrite lt_f_same by auto.
-  assert (ELEM : forall x y, depth x < n -> cmp_ok t cu f x = true -> cmp_ok t cu f y = true ->
+  assert (ELEM : forall x y, depth x < n -> cmp_ok t f x = true -> cmp_ok t f y = true ->
             eq_f n x y = is_eq (ncmp t (norm x) (norm y)) /\ lt_f t n x y = Ok (is_lt (ncmp t (norm x) (norm y)))) by (intros; apply IH; auto).
   clear IH.
   destruct a; destruct b; try discriminate EQ; cbn [norm lt_body].
@@ -371,9 +384,9 @@ Qed.
 (* ---- pg.eq / pg.lt in terms of the tree order ------------------------------------------------- *)
 Definition nc (a b : pv) : comparison := ncmp t (norm a) (norm b).
 
-Lemma eq_spec f a b : cmp_ok t cu f a = true -> cmp_ok t cu f b = true -> eq a b = is_eq (nc a b).
+Lemma eq_spec f a b : cmp_ok t f a = true -> cmp_ok t f b = true -> eq a b = is_eq (nc a b).
 Proof. intros Ha Hb. unfold eq. apply (link f); auto. Qed.
-Lemma lt_spec f a b : cmp_ok t cu f a = true -> cmp_ok t cu f b = true -> lt t a b = Ok (is_lt (nc a b)).
+Lemma lt_spec f a b : cmp_ok t f a = true -> cmp_ok t f b = true -> lt t a b = Ok (is_lt (nc a b)).
 Proof. intros Ha Hb. unfold lt. apply (link f); auto. Qed.
 
 Lemma nc_refl a : nc a a = Eq. Proof. apply ncmp_refl. Qed.
